@@ -5,13 +5,23 @@
 //! signature made with the member's identity secret (`sig = 1`) or with a foreign secret
 //! (`sig = 0`, so it does not verify).  Ops: `ao:m:k` add pool[k] as one-time bundle of member m,
 //! `al:m:k` add as long-term, `go:m` / `gl:m` fetch, `rx` remove_expired, `w` wait for the next
-//! wall-clock second.  The model's clock is `1000 + number of waits`; the harness checks at the
+//! wall-clock second; `so:m:k1.k2...` / `sl:m:k1.k2...` replace member m's one-time / long-term
+//! Vec by `[pool[k1], pool[k2], ...]` (push order, may be empty) by editing the registry state's
+//! serde representation and reading it back from CBOR bytes (state restored from persistence:
+//! nothing is verified on that path); `cn:m` number of stored one-time / long-term bundles of m
+//! (read off the serialised state).  The bundle of (member, k) is built once per attempt and
+//! re-used, so adding it again registers the *identical* bundle (XEdDSA signatures are
+//! randomised).  The model's clock is `1000 + number of waits`; the harness checks at the
 //! end of every segment that the wall clock is still in the expected second and restarts the
 //! case otherwise.
 //! Output per op: `A` accepted, `RL` / `RS` rejected (lifetime / signature), `G-` nothing,
 //! `G<k>:ok|bad` returned pool[k] and `verify()` on it right now says ok / fails, `E`
-//! KeyBundlesExpired, `D` done; `w` prints nothing.
+//! KeyBundlesExpired, `D` done (also restore), `N<a>/<b>` counts; `w` prints nothing.
+use std::cell::RefCell;
+use std::collections::HashMap;
 use std::time::{Duration, SystemTime, UNIX_EPOCH};
+
+use ciborium::Value;
 
 use p2panda_encryption::Rng;
 use p2panda_encryption::crypto::x25519::SecretKey;
@@ -72,23 +82,38 @@ fn attempt(pool: &[Spec], ops: &[&str]) -> Option<String> {
             Lifetime::from_range((t0 as i64 + s.nb) as u64, (t0 as i64 + s.na) as u64),
         )
     };
+    // Built once per (member, k): registering (member, k) again registers the identical bundle.
+    let ot_cache: RefCell<HashMap<(usize, usize), OneTimeKeyBundle>> = RefCell::new(HashMap::new());
+    let lt_cache: RefCell<HashMap<(usize, usize), LongTermKeyBundle>> = RefCell::new(HashMap::new());
     let onetime = |m: usize, k: usize| {
-        let prekey = mk_prekey(k);
-        let signer = if pool[k].sig { &members[m] } else { &foreign };
-        let sig = prekey.sign(signer, &rng).unwrap();
-        let otk = SecretKey::from_bytes([k as u8 + 1; 32]);
-        OneTimeKeyBundle::new(
-            members[m].verifying_key().unwrap(),
-            prekey,
-            sig,
-            Some(OneTimePreKey::new(otk.verifying_key().unwrap(), k as u64)),
-        )
+        ot_cache
+            .borrow_mut()
+            .entry((m, k))
+            .or_insert_with(|| {
+                let prekey = mk_prekey(k);
+                let signer = if pool[k].sig { &members[m] } else { &foreign };
+                let sig = prekey.sign(signer, &rng).unwrap();
+                let otk = SecretKey::from_bytes([k as u8 + 1; 32]);
+                OneTimeKeyBundle::new(
+                    members[m].verifying_key().unwrap(),
+                    prekey,
+                    sig,
+                    Some(OneTimePreKey::new(otk.verifying_key().unwrap(), k as u64)),
+                )
+            })
+            .clone()
     };
     let longterm = |m: usize, k: usize| {
-        let prekey = mk_prekey(k);
-        let signer = if pool[k].sig { &members[m] } else { &foreign };
-        let sig = prekey.sign(signer, &rng).unwrap();
-        LongTermKeyBundle::new(members[m].verifying_key().unwrap(), prekey, sig)
+        lt_cache
+            .borrow_mut()
+            .entry((m, k))
+            .or_insert_with(|| {
+                let prekey = mk_prekey(k);
+                let signer = if pool[k].sig { &members[m] } else { &foreign };
+                let sig = prekey.sign(signer, &rng).unwrap();
+                LongTermKeyBundle::new(members[m].verifying_key().unwrap(), prekey, sig)
+            })
+            .clone()
     };
 
     let mut y: KeyRegistryState<usize> = KeyRegistry::init();
@@ -156,6 +181,36 @@ fn attempt(pool: &[Spec], ops: &[&str]) -> Option<String> {
                     Err(_) => out.push("E?".into()),
                 }
             }
+            "so" | "sl" => {
+                let m = arg(1);
+                let ks: Vec<usize> = f
+                    .get(2)
+                    .copied()
+                    .unwrap_or("")
+                    .split('.')
+                    .filter(|x| !x.is_empty())
+                    .map(|x| x.parse().expect("k"))
+                    .collect();
+                let one = f[0] == "so";
+                let bundles: Vec<Value> = ks
+                    .iter()
+                    .map(|k| {
+                        if one {
+                            Value::serialized(&onetime(m, *k)).expect("ser bundle")
+                        } else {
+                            Value::serialized(&longterm(m, *k)).expect("ser bundle")
+                        }
+                    })
+                    .collect();
+                let identity = Value::serialized(&members[m].verifying_key().unwrap()).expect("ser key");
+                y = restore(&y, if one { "onetime_bundles" } else { "longterm_bundles" }, m, bundles, identity);
+                out.push("D".into());
+            }
+            "cn" => {
+                let m = arg(1);
+                let v = Value::serialized(&y).expect("ser state");
+                out.push(format!("N{}/{}", stored(&v, "onetime_bundles", m), stored(&v, "longterm_bundles", m)));
+            }
             "rx" => {
                 y = KeyRegistry::remove_expired(y);
                 out.push("D".into());
@@ -167,6 +222,55 @@ fn attempt(pool: &[Spec], ops: &[&str]) -> Option<String> {
         return None;
     }
     Some(out.join(" "))
+}
+
+fn field_mut<'a>(v: &'a mut Value, name: &str) -> &'a mut Vec<(Value, Value)> {
+    let Value::Map(fields) = v else { panic!("state is not a map") };
+    let (_, val) = fields
+        .iter_mut()
+        .find(|(k, _)| matches!(k, Value::Text(t) if t == name))
+        .unwrap_or_else(|| panic!("no field {name}"));
+    let Value::Map(entries) = val else { panic!("{name} is not a map") };
+    entries
+}
+
+fn is_member(k: &Value, m: usize) -> bool {
+    matches!(k, Value::Integer(i) if u64::try_from(*i).ok() == Some(m as u64))
+}
+
+/// Registry state restored from persisted bytes in which member m's Vec in `field` is `bundles`.
+fn restore(
+    y: &KeyRegistryState<usize>,
+    field: &str,
+    m: usize,
+    bundles: Vec<Value>,
+    identity: Value,
+) -> KeyRegistryState<usize> {
+    let mut v = Value::serialized(y).expect("ser state");
+    let entries = field_mut(&mut v, field);
+    entries.retain(|(k, _)| !is_member(k, m));
+    entries.push((Value::Integer((m as u64).into()), Value::Array(bundles)));
+    let ids = field_mut(&mut v, "identities");
+    ids.retain(|(k, _)| !is_member(k, m));
+    ids.push((Value::Integer((m as u64).into()), identity));
+    let mut bytes = Vec::new();
+    ciborium::into_writer(&v, &mut bytes).expect("encode state");
+    ciborium::from_reader(&bytes[..]).expect("decode state")
+}
+
+fn stored(v: &Value, field: &str, m: usize) -> usize {
+    let Value::Map(fields) = v else { panic!("state is not a map") };
+    let Some((_, Value::Map(entries))) = fields.iter().find(|(k, _)| matches!(k, Value::Text(t) if t == field)) else {
+        panic!("no field {field}")
+    };
+    entries
+        .iter()
+        .find(|(k, _)| is_member(k, m))
+        .map(|(_, l)| match l {
+            Value::Array(a) => a.len(),
+            _ => panic!("not a list"),
+        })
+        .unwrap_or(0)
 }
 
 pub fn case(payload: &str) -> String {
